@@ -28,8 +28,10 @@ def buf(name, up, capacity=None, delay=0):
     return {'kind': 'buffer', 'name': name, 'up': list(up), 'capacity': capacity, 'delay': delay}
 
 
-def sink(name, up, cycle=0):
-    return {'kind': 'sink', 'name': name, 'up': list(up), 'cycle': cycle, 'collect': True}
+def sink(name, up, cycle=0, **kw):
+    d = {'kind': 'sink', 'name': name, 'up': list(up), 'cycle': cycle, 'collect': True}
+    d.update(kw)
+    return d
 
 
 def gate(name, up, decider):
@@ -117,7 +119,7 @@ def ser_family(n_max=2, src_cycles=(0, 1, 2), sink_cycles=(0, 1), budgets=(None,
                             else:
                                 tag.append(f'{kind[0].upper()}{p["cycle"]}')
                         devs.append(sink('K', [prev], kc))
-                        name = f'SER[S{sc}b{b or "inf"}|{",".join(tag)}|K{kc}]'
+                        name = f'SER[S{sc}b{"inf" if b is None else b}|{",".join(tag)}|K{kc}]'
                         yield spec(name, devs, horizon), ser_well_posed(sc, b, stations, kc)
 
 
@@ -176,6 +178,29 @@ def NEST_MID(K=0, horizon=6, ops=None):
     return spec(f'NESTmid[K{K}]', devs, horizon, ops, K)
 
 
+def GRPPASS(K=0, horizon=5, ops=None):
+    '''A shared group that contains only a zero-time pass-through device (a quality gate used by two lines): a part
+    reaches the group's output inside the very give_part call with which it enters.'''
+    devs = [gate('Q', [], 'q_ge'), group('G', ['Q']),
+            src('S1', 1, qualities=[1, 0.25, 0.75]), src('S2', 2), path('a', 'G', ['S1']), path('b', 'G', ['S2']),
+            sink('K1', ['a'], 1), sink('K2', ['b']), gate('R', ['S1'], 'q_lt'), sink('KR', ['R'])]
+    if ops is None:
+        ops = [('block', 'a', True), ('block', 'a', False), ('block', 'K1', True), ('block', 'K1', False)]
+    return spec(f'GRPPASS[K{K}]', devs, horizon, ops, K)
+
+
+def NEST_PASS(K=0, horizon=7, ops=None):
+    '''The same pass-through group nested inside a shared machine group: M1 -> (gate group) -> M2.'''
+    devs = [gate('Q', [], 'all'), group('Gi', ['Q']),
+            proc('M1', [], 1), path('hp', 'Gi', ['M1']), proc('M2', ['hp'], 1),
+            group('Go', ['M1', 'hp', 'M2']),
+            src('S1', 2), src('S2', 3), path('g1', 'Go', ['S1']), path('g2', 'Go', ['S2']),
+            sink('K1', ['g1']), sink('K2', ['g2'])]
+    if ops is None:
+        ops = [('fail', 'M2', 0), ('restore', 'M2'), ('block', 'g1', True), ('block', 'g1', False)]
+    return spec(f'NESTpass[K{K}]', devs, horizon, ops, K)
+
+
 def NEST_OUT(K=0, horizon=6, ops=None):
     devs = [proc('M', [], 1), group('Gi', ['M']),
             hand('H1', [], 1), path('pi', 'Gi', ['H1']),
@@ -204,6 +229,19 @@ def RES(K=0, horizon=6, r=1, q=1, ops=None):
     return spec(f'RES[r{r},q{q},K{K}]', devs, horizon, ops, K, pools={'r': r, 'q': q})
 
 
+def RES_WINDOW(K=0, horizon=7, ops=None):
+    '''A maintenance shutdown that begins exactly at the instant a part is finished, between the hand-over and the
+    processor's deferred release of its resources (scripted, documented custom priority RELEASE_RESERVED_RESOURCES+0.5),
+    and ends later (scripted); faults and capacity changes are injected on top.  A second line competes for the unit.'''
+    devs = [src('S1', 2), proc('M1', ['S1'], 1, resources={'r': 1}), sink('K1', ['M1']),
+            src('S2', 3), proc('M2', ['S2'], 1, resources={'r': 1}), sink('K2', ['M2'])]
+    if ops is None:
+        ops = [('fail', 'M1', 0), ('restore', 'M1'), ('addres', 'r', -1), ('addres', 'r', 1)]
+    s = spec(f'RESWINDOW[K{K}]', devs, horizon, ops, K, pools={'r': 1})
+    s['script'] = [[3, 6.5, ['shutdown', 'M1']], [4.5, 2, ['restore', 'M1']]]
+    return s
+
+
 def RES_SER(K=0, horizon=6, r=1, ops=None):
     devs = [src('S', 1), proc('M1', ['S'], 1, resources={'r': 1}), buf('B', ['M1'], 2),
             proc('M2', ['B'], 2, resources={'r': 1}), sink('K', ['M2'])]
@@ -228,6 +266,25 @@ def MAINT(K=0, horizon=6, cap=1, ops=None, probes=0, n=2):
                    ('shutdown', 'M1'), ('restore', 'M1')]
     s = spec(f'MAINT{n}[cap{cap},K{K}]', devs, horizon, ops, K)
     s['probes'] = probes
+    return s
+
+
+def WARMUP(K=0, horizon=5):
+    '''The user discards the data recorded so far (simulation_data.clear(): a warm-up period) at any point of the run or
+    between two runs; everything that happens afterwards must still be recorded.'''
+    devs = [src('S', 1), proc('M1', ['S'], 2, auto_repair='x', wo={'x': [1, 1.5, 3]}, resources={'r': 1}), buf('B', ['M1'], 2),
+            sink('K', ['B']), maint(1)]
+    ops = [('cleardata',), ('fail', 'M1', 0), ('addres', 'r', 1)]
+    return spec(f'WARMUP[K{K}]', devs, horizon, ops, K, pools={'r': 1})
+
+
+def ABORT(K=0, horizon=5):
+    '''A user callback raises in the middle of the run (scripted): the exception reaches the caller of simulate() and
+    the exported trace lists every executed event including the failing one.'''
+    devs = [src('S', 1), proc('M1', ['S'], 2, auto_repair='x', wo={'x': [1, 1.5, 3]}), sink('K', ['M1']), maint(1)]
+    ops = [('fail', 'M1', 0), ('wo', 'M1', 'x')]
+    s = spec(f'ABORT[K{K}]', devs, horizon, ops, K)
+    s['script'] = [[3.5, 2, ['abort']]]
     return s
 
 
@@ -325,6 +382,15 @@ def VALUE(K=0, horizon=6, ops=None):
     if ops is None:
         ops = [('fail', 'P2', 0), ('wo', 'P2', 'x'), ('wo', 'P2', 'f'), ('fail', 'P1', 0), ('restore', 'P1')]
     return spec(f'VALUE[K{K}]', devs, horizon, ops, K)
+
+
+def VALUE_HOLD(K=0, horizon=5, ops=None):
+    '''Value booked by user code on items that are waiting in a device (the source's output slot while the line is
+    full, a machine's part in process): worth at supply / receipt is the worth at that moment.'''
+    devs = [src('S', 1, pattern=[None, 2], values=[5, 3]), proc('P', ['S'], 2, dv=1), sink('K', ['P'])]
+    if ops is None:
+        ops = [('revalue', 'S', 2), ('revalue', 'P', -1), ('fail', 'P', 0)]
+    return spec(f'VALUEHOLD[K{K}]', devs, horizon, ops, K)
 
 
 def VALUE_BATCH(K=0, horizon=5, ops=None):
@@ -480,7 +546,7 @@ def cms(name, sensors):
 
 
 def SENS(K=0, horizon=5, interval=1, cap=2, n=1, ocap=None, callbacks=2, cms_twice=True, second=None, ops=None,
-         placeholder=None, two_cms=False, same_name=False):
+         placeholder=None, two_cms=False, same_name=False, post_dq=None):
     '''A processor under an output-part sensor, periodic sensors on a mutable object, a CMS.'''
     wo = {'x': [1, 1, 0]}
     devs = [src('S', 1, qualities=[1, 0.5, 0.25, 0.75], values=[1, 2, 3]), proc('M1', ['S'], 1, wo=wo, dq=-0.25, auto_repair='x'),
@@ -489,6 +555,10 @@ def SENS(K=0, horizon=5, interval=1, cap=2, n=1, ocap=None, callbacks=2, cms_twi
             osensor('O', 'M1', ['quality', 'id'], n, ocap, 1)]
     if placeholder:
         devs[-1]['placeholder'] = placeholder
+    if post_dq is not None:
+        # one more processing step (a finish callback that changes the quality) is registered AFTER the sensor was
+        # constructed, before the run starts: the sensor measures the processed part
+        devs[-1]['post_dq'] = post_dq
     names = ['P', 'O'] + (['P'] if cms_twice else [])
     if second is not None:
         devs.append(psensor('P2', second, [('o1', 'n')], 1, 1))
@@ -501,7 +571,7 @@ def SENS(K=0, horizon=5, interval=1, cap=2, n=1, ocap=None, callbacks=2, cms_twi
     if ops is None:
         ops = [('bump', 'o1'), ('fail', 'M1', 0), ('wo', 'M1', 'x'), ('restore', 'M1'), ('addsensor', 'C', 'P')]
     nm = (f'SENS[i{interval},c{cap},n{n},oc{ocap},cb{callbacks}{",2nd" + str(second) if second else ""}'
-          f'{",ph=" + placeholder if placeholder else ""}{",2cms" if two_cms else ""}{",samename" if same_name else ""},K{K}]')
+          f'{",ph=" + placeholder if placeholder else ""}{",2cms" if two_cms else ""}{",samename" if same_name else ""}{",post" if post_dq is not None else ""},K{K}]')
     return spec(nm, devs, horizon, ops, K)
 
 
@@ -809,6 +879,17 @@ def BUFGATE(K=0, horizon=6, ops=None):
     return spec(f'BUFGATE[K{K}]', devs, horizon, ops, K)
 
 
+def SINKOFF(K=0, horizon=6, ops=None):
+    '''A sink whose nominal cycle time is 0 but whose cycles are stretched by one-shot offsets (receive callback), and
+    one whose cycle time is changed per part, 0 included: the upstream machine blocks during the stretched cycle and
+    must be served when it ends.'''
+    devs = [src('S', 0.5), proc('M1', ['S'], 0.5), sink('K', ['M1'], 0, offsets=[1.5, 0, 0.5]),
+            src('S2', 1), sink('K2', ['S2'], 2, cycles=[2, 0, 1])]
+    if ops is None:
+        ops = [('block', 'K', True), ('block', 'K', False), ('cycle', 'K2', 0), ('cycle', 'K', 1)]
+    return spec(f'SINKOFF[K{K}]', devs, horizon, ops, K)
+
+
 def OFFSETS2(K=0, horizon=7, ops=None):
     '''Several one-shot offsets accumulated for ONE cycle (intermediate sums below -cycle_time), cycle time raised afterwards.'''
     devs = [src('S', 1), proc('M1', ['S'], 2, cycles=[2, 3, 1], offsets=[[-3, 2], [-4, 3.5], [1, -0.5]]), sink('K', ['M1'])]
@@ -831,13 +912,13 @@ def VALUE_FRAC(K=0, horizon=5, ops=None):
     return spec(f'VALUEFRAC[K{K}]', devs, horizon, ops, K)
 
 
-def INITCREATE(K=0, horizon=4):
+def INITCREATE(K=0, horizon=4, creates=(15, 7), name=''):
     '''An asset created from inside another asset's initialize(): a scheduler whose start-up action (run during the
     one-time initialisation of the assets) creates a sink and a periodic sensor.'''
     devs = [src('S', 1), proc('M1', ['S'], 1), sink('K', ['M1']), obj('o1'),
             {'kind': 'scheduler', 'name': 'A', 'schedule': [[1, 'a'], [1, 'b']], 'cyclical': True,
-             'targets': [['o1', 'creator']], 'creates': [15, 7]}]
-    s = spec(f'INITCREATE[K{K}]', devs, horizon, [('fail', 'M1', 0), ('restore', 'M1')], K)
+             'targets': [['o1', 'creator']], 'creates': list(creates)}]
+    s = spec(f'INITCREATE{name}[K{K}]', devs, horizon, [('fail', 'M1', 0), ('restore', 'M1')], K)
     s['late'] = LATE_DEVICES
     return s
 
